@@ -1,5 +1,6 @@
 import PytezosModel.Proofs.InterpProgressComb
 import PytezosModel.Proofs.InterpGuard
+set_option linter.unusedSectionVars false   -- `[Mode]` is a section variable of every lemma here; some do not use it
 /-! **Progress** for the reference semantics of the modelled core: a well-typed program (`Typing.typeInstr`, with
 well-formed set / map literals: `Typing.literalsOk`) run on a well-typed stack (deep value typing `StackWF` of C02, and
 every set / map strictly sorted: `GoodStack`) is never stuck — for every fuel bound it yields a stack, a FAILWITH value,
